@@ -138,7 +138,7 @@ func (m *Model) Apply(work bool, o Op) {
 		return ""
 	}
 	switch o.Kind {
-	case "Cleanup":
+	case "Cleanup", "AddComment": // a comment block of its own says nothing about any directive
 	case "SortBlocks":
 		m.dedupe()
 	case "AddModuleStmt":
